@@ -34,7 +34,7 @@
  *   position / window classes in signatures: first-byte-of-link, last-byte-of-link, inside-link, separator;
  *   zero-buffer, offset-past-end, short-window, exact-end, beyond-end.
  *
- * Not covered here: the block-wise GET part of the property (netsim, done by the coordinator).
+ * Not covered here: the block-wise GET part of the property: stage c20get (harness/c20_get.c).
  */
 #include <coap3/coap_internal.h>
 #include <limits.h>
@@ -638,7 +638,7 @@ main(int argc, char **argv) {
                    "the listing must still consist of registered resources only");
   vx_ev_assumption("order of links and of link-params within a link is not compared (RFC 6690 gives it no meaning)");
   vx_ev_assumption("COAP_PRINT_STATUS_TRUNC is not checked for buflen == 0 (statement: 'for a non-empty buffer')");
-  vx_ev_assumption("the block-wise GET clause of C20 is checked elsewhere (netsim)");
+  vx_ev_assumption("the block-wise GET clause of C20 is checked by stage c20get (harness/c20_get.c)");
   vx_ev_str("reflink_selftest", "ok");
   vx_ev_int("tables", g_ntab);
   vx_ev_int("filters", NFILTERS);
